@@ -9,6 +9,7 @@ import Hgxv.Proofs.C06LinkD
 import Hgxv.Proofs.C06LinkT
 import Hgxv.Proofs.C06LinkM
 import Hgxv.Proofs.C06Text
+import Hgxv.Proofs.C06Str
 /-! # C06 — save then load returns the same hypergraph, for every type and format
 
 Property theorems about the model `Hgxv/Model/C06.lean` (+ `C06Hif.lean`).  A `Content κ` is what the
@@ -858,3 +859,53 @@ example : (saveText exT).length = 13 ∧ (saveText exT).head? = some .opn ∧ (s
 example : (loadText (κ := TKey) (saveText exT)).map Content.erased = some exT.erased := C06_text_roundtrip exT (by decide)
 example : readText ([.opn, .cls] : List (Piece Nat)) = some [] ∧ readText ([.opn, .item 1, .sep, .cls] : List (Piece Nat)) = none ∧
     readText ([.opn, .item 1, .cls, .cls] : List (Piece Nat)) = none ∧ readText ([.item 1] : List (Piece Nat)) = none := by decide
+
+/-! ## STRING CONTENT: the string-literal layer of the text format (strengthening round e)
+
+Node labels, layer names, metadata keys and string values reach the text file as JSON string literals written by
+`json.dump` with its default `ensure_ascii=True` and come back through `json.load` (`Hgxv/Model/C06Str.lean`,
+on lists of code points; the harness compares `Str.encode` with the bytes of the real files, label by label). -/
+
+/-- every Python `str` (code points below 0x110000, LONE SURROGATES INCLUDED) in which no high surrogate is immediately
+    followed by a low one is read back exactly.  Hypotheses: `Valid` is what a `str` is; `NoPair` is the assumption of
+    the check (ASSUMPTIONS: such a `str` has no JSON text of its own, see `C06_str_pair_witness`). -/
+theorem C06_str_roundtrip (s : List Nat) (hv : C06.Str.Valid s) (hp : C06.Str.NoPair s) :
+    C06.Str.decode (C06.Str.encode s) = some s :=
+  C06.Str.decode_encode s hv hp
+
+/-- non-vacuity: `caf\udce9` (os.fsdecode of an undecodable name), NUL, U+2028, an astral character, a low surrogate
+    BEFORE a high one, `"` and `\` -/
+example : C06.Str.Valid [99, 97, 102, 56553, 0, 8232, 128512, 56320, 55296, 34, 92] ∧
+    C06.Str.NoPair [99, 97, 102, 56553, 0, 8232, 128512, 56320, 55296, 34, 92] := by
+  refine ⟨by unfold C06.Str.Valid; decide, ?_⟩
+  simp [C06.Str.NoPair, C06.Str.isHigh, C06.Str.isLow]
+
+/-- the text written is printable ASCII only, for every list of code points: whatever the locale encoding of the process
+    (any ASCII-compatible one) the text file can be written and read, and no raw line separator, control character,
+    NUL or surrogate ever reaches the file -/
+theorem C06_str_ascii (s : List Nat) : ∀ u ∈ C06.Str.encode s, 32 ≤ u ∧ u ≤ 126 :=
+  C06.Str.encode_printable s
+
+example : C06.Str.encode [233, 55296, 10] =
+    [34, 92, 117, 48, 48, 101, 57, 92, 117, 100, 56, 48, 48, 92, 110, 34] := by decide
+
+/-- why `NoPair` is assumed (defect of the FORMAT, not of the code): the two-code-point string U+D83D U+DE00 is written
+    as `"\ud83d\ude00"`, which is also the text of the one-code-point string U+1F600 - and is read as that -/
+theorem C06_str_pair_witness : C06.Str.decode (C06.Str.encode [55357, 56832]) = some [128512] := by
+  show C06.Str.decBody (C06.Str.esc4 55357 ++ (C06.Str.esc4 56832 ++ [34])) = some [128512]
+  rw [C06.Str.decBody_pair _ _ (by decide) (by decide), C06.Str.decBody]
+  simp
+
+/-- the `ensure_ascii=False` variant (seeded change C06-e3): every code point from 127 on - in particular a lone
+    surrogate, which has no UTF-8 form - is handed to the file's encoder as it is: the text is no longer ASCII, the
+    round trip depends on the locale encoding and fails for surrogates under every UTF encoding -/
+theorem C06_str_raw_witness (c : Nat) (h : 127 ≤ c) : c ∈ C06.Str.encodeRaw [c] ∧ ¬ (32 ≤ c ∧ c ≤ 126) := by
+  have hs : C06.Str.short? c = none := by
+    unfold C06.Str.short?
+    repeat' split
+    all_goals first | omega | rfl
+  have h32 : ¬ c < 32 := by omega
+  refine ⟨?_, by omega⟩
+  simp [C06.Str.encodeRaw, C06.Str.encCharRaw, hs, h32]
+
+example : C06.Str.encodeRaw [55296] = [34, 55296, 34] := by decide
